@@ -35,18 +35,36 @@ OIDSETS = {
 _BR = []
 
 
-def br_class():
+def _br_module():
     if not _BR:
         m = types.ModuleType('mc_transient_br')
         exec('from persistent import Persistent\n'
-             'class Gone(Persistent):\n    pass\n', m.__dict__)
+             'class Gone(Persistent):\n    pass\n_Gone = Gone\n',
+             m.__dict__)
         _BR.append(m)
-    sys.modules['mc_transient_br'] = _BR[0]
-    return _BR[0].Gone
+    return _BR[0]
+
+
+HIDE = ['module']    # how the class goes missing: the whole module cannot
+#                      be imported, or it imports but has lost the class
+
+
+def br_class():
+    m = _br_module()
+    if not hasattr(m, 'Gone'):
+        m.Gone = m._Gone
+    sys.modules['mc_transient_br'] = m
+    return m.Gone
 
 
 def hide_br():
-    sys.modules.pop('mc_transient_br', None)
+    if HIDE[0] == 'module':
+        sys.modules.pop('mc_transient_br', None)
+    else:
+        m = _br_module()
+        sys.modules['mc_transient_br'] = m
+        if hasattr(m, 'Gone'):
+            del m.Gone
     env.mod('ZODB.broken').broken_cache.clear()
 
 
@@ -645,6 +663,14 @@ def graph_task(pair, tier):
     for g in graphs_for(pair, tier):
         n += 1
         viol = check_graph(g)
+        if 'BR' in g.kinds.values() and not viol:
+            # once more with the class missing from a module that imports
+            HIDE[0] = 'attribute'
+            try:
+                viol = [(c, s + ':class-removed-from-module', d)
+                        for c, s, d in check_graph(g)]
+            finally:
+                HIDE[0] = 'module'
         res['cov']['evaluations'] += 1
         if len(g.edges) >= 2:
             res['cov']['distinct_nontrivial'] += 1
@@ -711,9 +737,15 @@ def run(rep, tier, seed, workers):
         'weak, cross-database and forced-oid (all-ASCII, high-bit) families '
         'and hand-assembled protocol-1 records with short-string oids in '
         'every reference format; non-trivial = graph with at least two '
-        'edges' % (kinds,))
-    tasks = [(MOD, 'graph_task', (pair, tier))
-             for pair in itertools.product(kinds, repeat=2)]
+        'edges; a node of a class that is missing in the second session '
+        '(module gone / class removed from a module that imports) in the '
+        'pair (BR, P) and the special families' % (kinds,))
+    pairs = list(itertools.product(kinds, repeat=2))
+    if tier == 'quick':
+        # one pair with a node whose class goes missing (the module cannot
+        # be imported / imports without the class)
+        pairs.append(('BR', 'P'))
+    tasks = [(MOD, 'graph_task', (pair, tier)) for pair in pairs]
     tasks += [(MOD, 'special_task', ('special',)),
               (MOD, 'special_task', ('legacy',))]
     par.run_tasks(tasks, workers, rep, seed)
